@@ -26,6 +26,11 @@ ScDesc ==
       (* a reducer that HAS a MapSpec (over another axis) and takes y whole: axis i is reduced there too *)
       [] Scenario = "mappedreducer" -> [funcs |-> <<MapF("f", One("a"), One("y"), One(Spec1("a", One("i"))), One("i")),
                                                     MapF("g", <<"y", "b">>, One("w"), One(Spec1("b", One("j"))), One("j"))>>]
+      (* two mapped outputs of EQUAL shape over DIFFERENT axes feeding an outer product: whatever is derived per output  *)
+      (* (learner sequences, masks) must be derived from the output's own axes, not from its shape                        *)
+      [] Scenario = "square"   -> [funcs |-> <<MapF("f", One("a"), One("y"), One(Spec1("a", One("i"))), One("i")),
+                                               MapF("g", One("b"), One("v"), One(Spec1("b", One("j"))), One("j")),
+                                               MapF("h", <<"y", "v">>, One("w"), <<Spec1("y", One("i")), Spec1("v", One("j"))>>, <<"i", "j">>)>>]
 ScInputs ==
     CASE Scenario = "outer"       -> <<<<"a", InArr("a", One(3))>>, <<"b", InArr("b", One(2))>>>>
       [] Scenario = "zip"         -> <<<<"a", InArr("a", One(3))>>, <<"b", InArr("b", One(3))>>>>
@@ -35,6 +40,7 @@ ScInputs ==
       [] Scenario = "internalfirst" -> One(<<"a", InArr("a", One(3))>>)
       [] Scenario = "fanout"      -> One(<<"a", InArr("a", One(3))>>)
       [] Scenario = "mappedreducer" -> <<<<"a", InArr("a", One(3))>>, <<"b", InArr("b", One(2))>>>>
+      [] Scenario = "square"      -> <<<<"a", InArr("a", One(3))>>, <<"b", InArr("b", One(3))>>>>
 Axis == "i"
 N == 3
 
